@@ -25,6 +25,21 @@ def setup_side(env, disk_files=None):
     disk = S.SimDisk(disk_files)
     se.install(clock_spec=env['clock'], hash_spec=env['hash'], disk=disk)
     S.hold_junk(*env['junk'])
+    pe = env.get('environ')
+    if pe:
+        # process environment of this side: nothing of it may reach stdout
+        # or an output file
+        import os
+        for k, v in pe.items():
+            if k == '_cwd':
+                try:
+                    os.chdir(v)
+                    S.fired('cwd_perturb')
+                except OSError:
+                    pass
+            else:
+                os.environ[k] = v
+        S.fired('env_perturb')
     return se
 
 
